@@ -358,7 +358,7 @@ func TestVerifC03(t *testing.T) {
 	rec := kit.Start(t, "C03", "corrupt")
 	defer rec.Finish()
 	env := rec.Env
-	nRepos := env.Pick(6, 16)
+	nRepos := env.Pick(6, 12)
 	for i := 0; i < nRepos; i++ {
 		rng := rec.RNG("repo", i)
 		c := c03Repo{Idx: i, Version: uint(1 + i%2), Dup: i%3 == 2, Snaps: rng.Range(2, 3), Files: rng.Range(6, 14), Big: i%3 == 0}
@@ -481,13 +481,13 @@ func c03Run(t *testing.T, rec *kit.Rec, c c03Repo, rng *kit.RNG) {
 	// every 16th "every byte" site
 	readEvery := env.Pick(5, 3)
 	if env.Thorough() {
-		if c.Idx < 4 { // v1 big, v2, v1+duplicates, v2 big: every byte of every file <= 4 KiB
+		if !c.Big && c.Idx < 6 && c.Idx != 4 { // repositories 1 (v2), 2 (v1 + duplicates), 5 (v2 + duplicates): every byte of every file <= 4 KiB
 			for _, s := range c03AllBytes(b.st, rec.RNG("allbytes", c.Idx)) {
 				cases = append(cases, []c03Site{s})
 			}
 		}
 		mr := rec.RNG("multi", c.Idx)
-		for k := 0; k < 150; k++ {
+		for k := 0; k < 100; k++ {
 			var ms []c03Site
 			for j := mr.Range(2, 5); j > 0; j-- {
 				ms = append(ms, sites[mr.Intn(len(sites))])
